@@ -559,4 +559,31 @@ example : utf8Ok (.str [0xD800, 120]) = false ∧ utf8Ok (.str [0xDCFF]) = true 
   decide
 example : latin1Ok (.str [233]) = true ∧ latin1Ok (.str [0x65E5]) = false ∧ latin1Ok (.str [0xD800]) = false ∧ latin1Ok .int = true := by decide
 
+/-! ## audit round 6 (cross-audit): non-vacuity witnesses for the theorems that had none -/
+
+/-- `malformed_port_or_code_leaves_flow_unchanged`: a valid comment edit followed by `"port": "a"` — refused, the earlier
+    accepted edit (effect 1) and its backup stay, the comment effect 7 is rolled back -/
+example : intOk (.str [97]) = false ∧
+    put ⟨true, true⟩ ⟨[1], some []⟩ (.obj [.comment [.eff 7], .request (some [⟨.path, [.eff 8]⟩, intLeaf .port 9 (.str [97])])])
+      = (.refused400, ⟨[1], some []⟩) := by decide
+
+/-- `malformed_header_list_leaves_flow_unchanged`: the second element is not a pair — the `clear` and the first `add` are undone -/
+example : put ⟨true, true⟩ ⟨[], none⟩
+    (.obj [.response (some [headersLeaf .headers [3, 4, 5] (.list [.seq [.str [97], .str [98]], .seq [.str [99]]])])])
+      = (.refused400, ⟨[], none⟩) := by decide
+
+/-- `failing_key_leaves_flow_unchanged` with the failing key in the middle of valid ones, in the response part -/
+example : put ⟨true, true⟩ ⟨[2], none⟩
+    (.obj [.marked [.eff 1], .response (some [⟨.code, [.eff 5]⟩, ⟨.reason, [.fail]⟩, ⟨.content, [.eff 6]⟩])]) = (.refused400, ⟨[2], none⟩) := by decide
+
+/-- `session_all_or_nothing` on a session of three documents (accepted, refused, accepted): exactly the accepted effects, in order -/
+example : runSession ⟨true, false⟩ ⟨[], none⟩
+    [.obj [.request (some [⟨.method, [.eff 1]⟩])], .obj [.request (some [⟨.path, [.eff 2]⟩]), .unknown], .obj [.comment [.eff 3]]]
+      = ⟨[1, 3], some []⟩ ∧
+    sessionEffects ⟨true, false⟩
+      [.obj [.request (some [⟨.method, [.eff 1]⟩])], .obj [.request (some [⟨.path, [.eff 2]⟩]), .unknown], .obj [.comment [.eff 3]]] = [1, 3] := by decide
+
+/-- `put_refused_keeps_revert_target` / `put_refused_iff_invalid` with an existing backup -/
+example : (put ⟨true, true⟩ ⟨[1, 2], some [1]⟩ (.obj [.request none])).2.revert = ⟨[1], none⟩ ∧
+    (put ⟨true, true⟩ ⟨[1, 2], some [1]⟩ .notObject).1 = .refused400 := by decide
 end MitmVerif.Props.C47
